@@ -27,6 +27,7 @@ class CfgA:
     a: index
     s: f32
     flag: bool
+    b: index
 
 @config
 class CfgB:
@@ -38,6 +39,7 @@ CFG_FIELDS = {
     ("CfgA", "a"): "index",
     ("CfgA", "s"): "f32",
     ("CfgA", "flag"): "bool",
+    ("CfgA", "b"): "index",
     ("CfgB", "k"): "index",
     ("CfgB", "t"): "f32",
 }
@@ -321,6 +323,8 @@ class ProgGen:
             return self.pick(sc.bools)
         if self.use_cfg and k <= 8:
             return self.pick(["CfgA.a == 2", "CfgA.flag", "CfgB.k < 3", "CfgA.a >= 1"])
+        if cv and self.chance(50):
+            return f"{e_render(self.affine(sc, 2))} {self.pick(['<', '<=', '==', '>'])} {e_render(self.affine(sc, 1))}"
         if cv:
             v = self.pick(cv)
             w = self.pick(cv)
@@ -424,6 +428,17 @@ class ProgGen:
             else:
                 var = Var(it, 0, 3)
                 los, his = "0", "4"
+        elif k == 9 and cv and self.chance(60):
+            # quasi-affine upper bound over bounded variables (may be zero-trip)
+            e = self.affine(sc, 2)
+            r = self.rng_of(sc, e)
+            if r is None or r[1] - r[0] > 12:
+                e, r = ("c", 3), (3, 3)
+            if r[0] < 0:
+                e = ("+", e, ("c", -r[0]))
+                r = (0, r[1] - r[0])
+            var = Var(it, 0, max(0, r[1] - 1))
+            los, his = "0", e_render(e)
         elif k == 9:
             # zero-trip loop
             c = self.int(0, 3)
@@ -552,7 +567,7 @@ class ProgGen:
         return ["window", name, b.name, acc]
 
     def wcfg(self, sc):
-        f = self.pick([("CfgA", "a"), ("CfgA", "s"), ("CfgB", "k"), ("CfgA", "flag"), ("CfgB", "t")])
+        f = self.pick([("CfgA", "a"), ("CfgA", "s"), ("CfgB", "k"), ("CfgA", "flag"), ("CfgB", "t"), ("CfgA", "b")])
         ty = CFG_FIELDS[f]
         if ty == "index":
             # the type checker forbids config writes that depend on loop iterators
@@ -773,6 +788,11 @@ class ProgGen:
                 sc.sizes[s] = (mn, q)
             else:
                 sc.sizes[s] = (mn, 1)
+            if self.chance(40):
+                # a bounded size takes part in quasi-affine index arithmetic like an index variable
+                mx = max(mn, self.pick([5, 6, 8]))
+                preds.append(f"{s} <= {mx}")
+                sc.vars[s] = Var(s, sc.sizes[s][0], mx)
         if self.chance(30):
             lo, hi = self.int(-3, 0), self.int(0, 4)
             args.append({"name": "p", "kind": "index", "range": (lo, hi)})
